@@ -16,7 +16,12 @@
 //   E_i = 16 eps L_i (number of cells along the three axes + 2).
 // The optical depth along the line is bracketed the same way, which gives a
 // bracket [t_lo, t_hi] for the stopping parameter and a three-valued decision
-// (must stop / must leave / ambiguous).  When every operation of the code is
+// (must stop / must leave / ambiguous).  A start point within E of a wall
+// (not exactly on it) may be assigned to the cell on the other side; the
+// traversal then begins with a step of up to E/|d| backwards, so for such
+// starts the brackets reach back to -E/|d| and E grows by the displacement
+// this causes in the other coordinates (only noticeable for grazing
+// directions; labelled and not counted as non-trivial).  When every operation of the code is
 // provably exact (axis aligned direction, small dyadic geometry and cell
 // contents) E = 0 and the bracket collapses: the stop/leave decision and the
 // stopping cell are then demanded exactly, equality included.
